@@ -153,11 +153,19 @@ FACTOR_SHAPES = ["neg(x)", "abs(x)", "x*c", "c*x", "x/c", "c/x", "x*y", "neg(abs
 
 def h_factor_and_simplify(eng):
     cas = M.install(eng)
-    shape = FACTOR_SHAPES[eng.choice(len(FACTOR_SHAPES))]
+    from .casadi_facts import casadi_facts
+    unary = sorted(casadi_facts()["unary_ops"])
+    # every one-operand operation the installed CasADi has, at the top of the residual and under a constant factor
+    shapes = FACTOR_SHAPES + ["%s(x-y)" % u for u in unary] + ["%s(x)*c" % u for u in unary]
+    shape = shapes[eng.choice(len(shapes))]
     eng.input("equation_shape", shape)
     x, y = sym("x"), sym("y")
     c, c2 = const(eng.input("c", eng.fresh_real("c"))), const(eng.input("c2", eng.fresh_real("c2")))
-    eq = {"neg(x)": E("OP_NEG", x), "abs(x)": E("OP_FABS", x), "x*c": E("OP_MUL", x, c), "c*x": E("OP_MUL", c, x), "x/c": E("OP_DIV", x, c),
+    generic = {}
+    for u in unary:
+        generic["%s(x-y)" % u] = E(u, E("OP_SUB", x, y))
+        generic["%s(x)*c" % u] = E("OP_MUL", E(u, x), c)
+    eq = generic[shape] if shape in generic else {"neg(x)": E("OP_NEG", x), "abs(x)": E("OP_FABS", x), "x*c": E("OP_MUL", x, c), "c*x": E("OP_MUL", c, x), "x/c": E("OP_DIV", x, c),
           "c/x": E("OP_DIV", c, x), "x*y": E("OP_MUL", x, y), "neg(abs(x*c)/c2)": E("OP_NEG", E("OP_DIV", E("OP_FABS", E("OP_MUL", x, c)), c2)),
           "x-y": E("OP_SUB", x, y), "(x-y)*c": E("OP_MUL", E("OP_SUB", x, y), c)}[shape]
     model = VObj(VClass("Model"), {"equations": VList([eq])})
